@@ -21,7 +21,7 @@
    one side and rejected on the other (the one-way rejection). *)
 From HostdBase Require Import Base.
 From HostdContracts Require Import Model Build Lib Inv InvOps Chain BuildProofs PerContract Proj Rows
-  SpecLemmas Steps Plain Rescan Hist ProofsC01 Wfb.
+  SpecLemmas Steps Plain Rescan Hist RejCause ProofsC01 Wfb.
 Local Open Scope N_scope.
 
 (* Every well-formed history — any interleaving of batches of reverts and applies, rescans and other
@@ -125,6 +125,18 @@ Theorem c01_rejection_complete_v2 : forall (l : list op) revs apps i ch hm s',
   forall id c, find2 id (cs2 s') = Some c -> conf2 c = None -> neg2 c <? hm = true -> s2 c = R2.
 Proof. exact rejection_complete_v2_run. Qed.
 Print Assumptions c01_rejection_complete_v2.
+
+(* (c) Never without cause: after ANY list of operations, a rejected contract has negotiation
+   height below one of the heights (block height - buffer) that a successfully processed applied
+   block passed to RejectContracts ([run_rej]: those heights, most recent first) — i.e. some
+   processed height exceeded negotiation height + buffer. *)
+Theorem c01_rejected_only_with_cause : forall l : list op,
+  (forall id c, find1 id (cs1 (run init step l)) = Some c -> s1 c = Rejected ->
+     exists hm, In hm (run_rej init l []) /\ neg1 c < hm) /\
+  (forall id c, find2 id (cs2 (run init step l)) = Some c -> s2 c = R2 ->
+     exists hm, In hm (run_rej init l []) /\ neg2 c < hm).
+Proof. exact rejected_has_cause. Qed.
+Print Assumptions c01_rejected_only_with_cause.
 
 (* The blocks of this file are what the contract manager hands to the store: buildContractState
    (Build.v, tied to host/contracts/update.go by its own correspondence run) maps the element diffs
